@@ -68,6 +68,7 @@ var specialNames = []string{
 	"InLast_K0", "InLast_S4", "OutLast_K2K3", "OutLast_S5S6", "InIgnMid_K0", "InIgnMid_S4", "OutIgnMid_K2K3", "OutIgnMid_S5S6",
 	"Clo_K0_a", "Clo_K0_b", "Clo_K0_c", "Clo_K1_a", "Clo_K1_b", "Clo_K1_c", "Clo_S0_a", "Clo_S0_b", "Clo_S4_a", "Clo_S4_b", "CloDep_K2_a", "CloDep_K2_b", "CloIn_K3_a", "CloIn_K3_b",
 	"InPtr_K0", "InPtr_S4", "InPtr_K2", "OutPtr_K2K3", "OutPtr_S5S6", "OutPtr_K0K1",
+	"Out1_K0k", "Out1_K1e", "Out1_K2g", "Out1_S5", "Out1_S0p",
 }
 
 var outGroupNames = []string{"OutG_K0K1", "OutGG_K0"}
